@@ -44,12 +44,21 @@ def main():
         demo_cmd = meta.get("demo_cmd", "")
         mabs = os.path.abspath(mdir)
         run_demo = demo_cmd.replace("<repo>", wt).replace("<worktree>", wt)
-        run_demo = re.sub(r"\bcp (-r )?(?!/)", lambda m: "cp %s%s/" % (m.group(1) or "", mabs), run_demo)
+        run_demo = re.sub(r"\s*\(after copying[^)]*\)\s*", " ", run_demo).strip()
+        if "cp " not in run_demo:
+            # no copy step given: the demonstration goes into the package the go test command names
+            m = re.search(r"go test .*?(\./[\w./-]+|\s\.)\s*$", run_demo)
+            pkg = (m.group(1).strip() if m else ".")
+            tests = [f for f in os.listdir(mdir) if f.endswith("_test.go")]
+            run_demo = " && ".join(["cp %s/%s %s/%s/rt_%s" % (mabs, f, wt, pkg, f) for f in tests] + [run_demo])
+        else:
+            run_demo = re.sub(r"\bcp (-r )?(?!/)", lambda m: "cp %s%s/" % (m.group(1) or "", mabs), run_demo)
         res["demo_cmd"] = run_demo
         rc0, out0 = sh("timeout 1200 bash -c %s" % json.dumps(run_demo), cwd=wt)
         sh("git clean -fdq", cwd=wt)
         res["ran"].append({"step": "demo without patch", "rc": rc0, "tail": out0[-600:]})
-        rc, out = sh("git apply %s" % os.path.abspath(os.path.join(mdir, "patch.diff")), cwd=wt)
+        pf = os.path.abspath(os.path.join(mdir, "patch.diff"))
+        rc, out = sh("git apply %s || patch -p1 -F3 --no-backup-if-mismatch < %s" % (pf, pf), cwd=wt)
         res["ran"].append({"step": "apply", "rc": rc, "tail": out[-300:]})
         if rc != 0:
             res["confirmed"] = False
